@@ -718,7 +718,11 @@ pub fn check_case(case: &Case, ctx: &mut Ctx) -> Verdict {
                     .map(|l| preferred(l))
                     .collect();
                 let mine = |r: &(String, String, String, String)| -> bool {
-                    r.0 != name && (!r.0.starts_with('-') || own_names.iter().any(|n| r.0.starts_with(n.as_str())))
+                    r.0 != name
+                        && (!r.0.starts_with('-')
+                            || own_names
+                                .iter()
+                                .any(|n| r.0 == *n || r.0.starts_with(&format!("{}=", n))))
                 };
                 let rows = |p: &Parsed| -> Vec<String> {
                     let mut v: Vec<String> = p
